@@ -286,6 +286,7 @@ fn gen_schema_beh(rng: &mut Rng) -> Beh {
         json_wrapped: rng.chance(60),
         json_is_one_of: true,
         json_directives: rng.chance(70),
+        ..RenderKnobs::default()
     };
     let v = schema.to_json(&knobs);
     let text = if rng.chance(50) { serde_json::to_string(&v).unwrap() } else { serde_json::to_string_pretty(&v).unwrap() };
